@@ -503,19 +503,73 @@ def mon_c10(run, world, f37_out=None):
         return bad          # the harness's own adversarial policy is not one of the bundled policies
     pools = set()
     workers = {}
+    pool_cap = {}
     info = graph_info(run)
     last_offer = None
     log = run["log"]
+    st8 = {}
+    plan = {}        # task -> (start, runtime, pool id, strategy index) of its current plan (SCHEDULED or RUNNING)
+    # (greedy policies decide for `now` only and see the cluster as it is: a task whose placement event is still pending
+    # or being retried is not on a worker yet — the plan-ahead clause is checked for the planners that pin earlier plans)
+    capacity_clause = world["flags"]["scheduler"] in ("ILP", "TetriSched_Gurobi", "TetriSched_CPLEX")
     for e in log:
         if e[0] == "cluster":
             pools = {p[1] for p in e[1]}
             names = e[2] if len(e) > 2 else {}
             units = {w[0]: w[1] for p in e[1] for w in p[2]}
             workers = {wid: (wn, units.get(wn, [])) for wid, wn in names.items()}
+            for p in e[1]:
+                tot = {}
+                for w in p[2]:
+                    for (rn, _i, q) in w[1]:
+                        tot[rn] = tot.get(rn, 0) + q
+                pool_cap[p[1]] = tot
+        elif e[0] == "graph":
+            for t in e[1]["tasks"]:
+                st8[t["name"]] = t["state"]
+        elif e[0] == "task" and e[5] != "ERR":
+            st8[e[2]] = e[5]
+            if e[1] == "schedule" and e[6] and e[6][0] is not None and e[6][3] is not None:
+                plan[e[2]] = (e[6][0], e[6][3], e[6][1], e[6][2])
+            elif e[1] == "start" and e[2] in plan:
+                plan[e[2]] = (e[3], max(e[6][0], 1), plan[e[2]][2], plan[e[2]][3])
+            elif e[1] in ("unschedule", "cancel", "finish"):
+                plan.pop(e[2], None)
         elif e[0] == "offer":
             last_offer = e
         elif e[0] == "decisions":
             now, decs = e[1], e[2]
+            if capacity_clause:
+                # all placements together with the tasks that are running or were scheduled earlier (and are not decided
+                # again) never exceed the capacity of a POOL at any planned instant (a necessary condition of the
+                # per-worker statement: a pool holds no more than its workers together)
+                decided = {d[1] for d in decs if d[0] in ("PLACE_TASK", "CANCEL_TASK")}
+                ivs = []
+                for t, (s0, rt, pool, idx) in plan.items():
+                    if t in decided or st8.get(t) not in ("RUNNING", "SCHEDULED") or idx is None or t not in info:
+                        continue
+                    if st8.get(t) == "SCHEDULED" and s0 <= now:
+                        continue          # its placement is being dispatched / retried right now (see F36)
+                    ivs.append((max(s0, now) if st8.get(t) == "SCHEDULED" else now, max(s0 + rt, now + 1), pool, t, info[t]["strategies"][idx][1], st8.get(t)))
+                for d in decs:
+                    if d[0] == "PLACE_TASK" and d[3] is not None and d[5] is not None and d[6] is not None and d[7] is not None and d[1] in info:
+                        ivs.append((d[5], d[5] + max(d[7], 1), d[3], d[1], info[d[1]]["strategies"][d[6]][1], "placed now"))
+                new_pts = sorted({iv[0] for iv in ivs if iv[5] == "placed now"})
+                flagged = False
+                for pt in new_pts:
+                    for pool, cap in pool_cap.items():
+                        use = {}
+                        who = []
+                        for (a, b, pl, t, req, kind) in ivs:
+                            if pl == pool and a <= pt < b:
+                                who.append("%s(%s)[%s,%s)" % (t, kind, a, b))
+                                for (rn, _i, q) in req:
+                                    use[rn] = use.get(rn, 0) + q
+                        over = [(rn, q, cap.get(rn, 0)) for rn, q in use.items() if q > cap.get(rn, 0)]
+                        if over and any("placed now" in x for x in who) and not flagged:
+                            flagged = True
+                            bad.append("decisions at %s plan %s x %s at t=%s on a pool whose workers hold %s in total: %s"
+                                       % (now, over[0][1], over[0][0], pt, over[0][2], ", ".join(who)))
             if not e[4]:
                 bad.append("schedule() at %s changed the occupancy of the live cluster" % now)
             if not e[5]:
@@ -567,6 +621,7 @@ def mon_c11(run, world):
     info = graph_info(run)
     state = {}
     started = {}
+    planned = {}
     for e in run["log"]:
         if e[0] == "graph":
             for t in e[1]["tasks"]:
@@ -575,6 +630,10 @@ def mon_c11(run, world):
             state[e[2]] = e[5]
             if e[1] == "start":
                 started[e[2]] = (e[3], e[6][0])
+            if e[1] == "schedule" and e[6] and e[6][0] is not None and e[6][3] is not None:
+                planned[e[2]] = (e[6][0], e[6][3])
+            if e[1] in ("unschedule", "cancel"):
+                planned.pop(e[2], None)
         elif e[0] == "decisions":
             now = e[1]
             placed = {d[1]: (d[5], d[7]) for d in e[2] if d[0] == "PLACE_TASK" and d[3] is not None}
@@ -590,6 +649,9 @@ def mon_c11(run, world):
                         bad.append("%s placed at %s although its co-decided parent %s was left unplaced (now=%s)" % (t, pt, p, now))
                     if p in placed and placed[p][1] is not None and pt < placed[p][0] + placed[p][1]:
                         bad.append("%s placed at %s, before its parent %s placed at %s with runtime %s ends" % (t, pt, p, placed[p][0], placed[p][1]))
+                    if p not in decided and state.get(p) == "SCHEDULED" and p in planned and pt < planned[p][0] + planned[p][1]:
+                        bad.append("%s placed at %s, before its parent %s (scheduled earlier for %s with runtime %s, not "
+                                   "re-decided) is expected to finish" % (t, pt, p, planned[p][0], planned[p][1]))
                     if p not in decided and state.get(p) == "RUNNING" and p in started:
                         s, d = started[p]
                         if pt < s + d:
